@@ -515,27 +515,84 @@ Record nstate := mkNS {
   ns_blocks : list Z;       (* delivered blocks (ordinals of their bodies) *)
   ns_app : Z;               (* application state: ordinal of the last snapshot restored / block applied *)
   ns_pool : list pentry;    (* Hashgraph.PendingSignatures *)
-  ns_locked : bool          (* Node.coreLock is held by nobody who will release it: every handler that needs it blocks *)
+  ns_locked : bool;         (* Node.coreLock is held by nobody who will release it: every handler that needs it blocks *)
+  ns_known : list Z;        (* ordinals of the events in the hashgraph (what Store.GetEvent finds) *)
+  ns_heads : list (Z * option Z);
+      (* core.heads: sender id -> the event to use as other-parent of the next self-event (None = nil) *)
+  ns_busy : bool            (* core.busy(): pending transactions / loaded events, so core.sync records the heads *)
 }.
+
+(* what core.sync needs to know about the event beyond its validation: its ordinal, the sender of the
+   message, its creator, and - when the insertion is refused - whether the refusal is a "normal"
+   self-parent error (self-parent is not the creator's last event: duplicates, forks), which core.sync
+   skips without an error *)
+Record emeta := mkEM { em_id : Z; em_from : Z; em_creator : Z; em_normal : bool }.
+
+Definition head_of (hs : list (Z * option Z)) (k : Z) : option (option Z) :=
+  match find (fun p => fst p =? k) hs with Some p => Some (snd p) | None => None end.
+Definition del_head (hs : list (Z * option Z)) (k : Z) : list (Z * option Z) :=
+  filter (fun p => negb (fst p =? k)) hs.
+Definition set_head (hs : list (Z * option Z)) (k : Z) (v : option Z) : list (Z * option Z) :=
+  (k, v) :: del_head hs k.
+Definition known_head (known : list Z) (h : option Z) : bool :=
+  match h with None => true | Some x => existsb (Z.eqb x) known end.
+(* every recorded head is an event of the hashgraph: what addSelfEvent's checkOtherParent needs *)
+Definition heads_ok (known : list Z) (hs : list (Z * option Z)) : bool :=
+  forallb (fun p => known_head known (snd p)) hs.
+
+(* the part of core.sync after validation, for a one-event message. inserted = the event went into the
+   hashgraph. Index comparisons ("only a NEWER event replaces / deletes a head") are abstracted: the
+   new event is taken to be newer. Returns (recordHeads succeeded, known, heads). *)
+Definition sync_heads (known : list Z) (heads : list (Z * option Z)) (busy inserted : bool) (m : emeta)
+  : bool * list Z * list (Z * option Z) :=
+  let known1 := if inserted then em_id m :: known else known in
+  let other := if inserted && (em_creator m =? em_from m) then Some (em_id m) else None in
+  let heads1 := if inserted then
+                  match head_of heads (em_creator m) with
+                  | Some (Some _) => del_head heads (em_creator m)
+                  | _ => heads
+                  end
+                else heads in
+  let heads2 := match head_of heads1 (em_from m), other with
+                | Some (Some _), None => heads1          (* do not overwrite a non-empty head with an empty one *)
+                | _, _ => set_head heads1 (em_from m) other
+                end in
+  if busy then
+    if heads_ok known1 heads2 then (true, known1, [])    (* recordHeads: one self-event per head *)
+    else (false, known1, heads2)                         (* addSelfEvent: "Other-parent not known" *)
+  else (true, known1, heads2).
 
 Inductive cmd :=
 | CSync (limit : Z) (diff_err : bool)
     (* SyncRequest; diff_err = data: core.eventDiff(Known) fails (an index below -1 for a known participant,
        or events already rolled out of the cache); otherwise the Known map is empty *)
-| CEager (e : wevent) (new_sigs : list pentry)              (* the event's block signatures enter the pool *)
+| CEager (e : wevent) (new_sigs : list pentry) (m : emeta)  (* the event's block signatures enter the pool *)
 | CJoin (t : itx) (present : bool)
 | CFastForwardReq
 | RFastForward (f : ffresp) (snapshot : Z) (new_blocks : list Z).   (* response to the node's own request *)
 
 Definition set_pool (st : nstate) (p : list pentry) : nstate :=
-  mkNS (ns_state st) (ns_conf_limit st) (ns_events st) (ns_blocks st) (ns_app st) p (ns_locked st).
+  mkNS (ns_state st) (ns_conf_limit st) (ns_events st) (ns_blocks st) (ns_app st) p (ns_locked st)
+       (ns_known st) (ns_heads st) (ns_busy st).
 Definition set_app (st : nstate) (a : Z) : nstate :=
-  mkNS (ns_state st) (ns_conf_limit st) (ns_events st) (ns_blocks st) a (ns_pool st) (ns_locked st).
+  mkNS (ns_state st) (ns_conf_limit st) (ns_events st) (ns_blocks st) a (ns_pool st) (ns_locked st)
+       (ns_known st) (ns_heads st) (ns_busy st).
 Definition set_blocks (st : nstate) (b : list Z) : nstate :=
-  mkNS (ns_state st) (ns_conf_limit st) (ns_events st) b (ns_app st) (ns_pool st) (ns_locked st).
+  mkNS (ns_state st) (ns_conf_limit st) (ns_events st) b (ns_app st) (ns_pool st) (ns_locked st)
+       (ns_known st) (ns_heads st) (ns_busy st).
 (* what a handler that returned without n.coreLock.Unlock() would leave behind (no modelled path does) *)
 Definition leak_lock (st : nstate) : nstate :=
-  mkNS (ns_state st) (ns_conf_limit st) (ns_events st) (ns_blocks st) (ns_app st) (ns_pool st) true.
+  mkNS (ns_state st) (ns_conf_limit st) (ns_events st) (ns_blocks st) (ns_app st) (ns_pool st) true
+       (ns_known st) (ns_heads st) (ns_busy st).
+(* what a core.sync that recorded a NOT inserted event as the sender's head would leave behind
+   (no modelled path does; seeded change seeded/C08-r2) *)
+Definition poison_head (st : nstate) (from eid : Z) : nstate :=
+  mkNS (ns_state st) (ns_conf_limit st) (ns_events st) (ns_blocks st) (ns_app st) (ns_pool st) (ns_locked st)
+       (ns_known st) (set_head (ns_heads st) from (Some eid)) (ns_busy st).
+(* a hashgraph reset from a frame: the node fast-forwards before it has synced with anybody *)
+Definition reset_graph (st : nstate) : nstate :=
+  mkNS (ns_state st) (ns_conf_limit st) (ns_events st) (ns_blocks st) (ns_app st) (ns_pool st) (ns_locked st)
+       [] [] (ns_busy st).
 
 (* Every handler below takes n.coreLock after the state gate and releases it on every path,
    error paths included (processSyncRequest: Lock; eventDiff; Unlock - then the error is answered). *)
@@ -555,7 +612,7 @@ Definition handle (fx : fixes) (st : nstate) (c : cmd) : outcome unit * nstate :
     if negb (gate (ns_state st) false) then (Err, st)
     else if ns_locked st then (Hang, st)
     else (Ok tt, st)
-  | CEager e sigs =>
+  | CEager e sigs m =>
     if negb (gate (ns_state st) false) then (Err, st)
     else if ns_locked st then (Hang, st)
     else if negb (we_read_ok e) then (Err, st)
@@ -564,11 +621,21 @@ Definition handle (fx : fixes) (st : nstate) (c : cmd) : outcome unit * nstate :
          | Hang => (Hang, st)
          | Err | Ok false => (Err, st)
          | Ok true =>
-           if negb (we_rest_ok e) then (Err, st)
+           if negb (we_rest_ok e) && negb (em_normal m) then (Err, st)   (* refused with a reported error *)
            else
-             (* the event is in the hashgraph, its block signatures are pending *)
-             let (o, rest) := process_sigpool fx (ns_pool st ++ sigs) in
-             (o, mkNS (ns_state st) (ns_conf_limit st) (ns_events st + 1) (ns_blocks st) (ns_app st) rest (ns_locked st))
+             (* inserted (its block signatures are pending), or skipped silently: a "normal"
+                self-parent error leaves the hashgraph AND the heads as they were *)
+             let inserted := we_rest_ok e in
+             let '(recorded, known', heads') := sync_heads (ns_known st) (ns_heads st) (ns_busy st) inserted m in
+             let pending := if inserted then ns_pool st ++ sigs else ns_pool st in
+             let nev := if inserted then ns_events st + 1 else ns_events st in
+             if negb recorded then
+               (Err, mkNS (ns_state st) (ns_conf_limit st) nev (ns_blocks st) (ns_app st) pending (ns_locked st)
+                          known' heads' (ns_busy st))
+             else
+               let (o, rest) := process_sigpool fx pending in
+               (o, mkNS (ns_state st) (ns_conf_limit st) nev (ns_blocks st) (ns_app st) rest (ns_locked st)
+                        known' heads' (ns_busy st))
          end
   | RFastForward f snap blocks =>
     if negb (ns_state st =? 1) then (Err, st)       (* only a node in CatchingUp asks *)
@@ -583,7 +650,7 @@ Definition handle (fx : fixes) (st : nstate) (c : cmd) : outcome unit * nstate :
         if fx_rehearse fx && negb (ff_insert_ok f) then (Err, st1)
         else if negb (ff_insert_ok f) then
           (* snapshot restored (at the latest now), store cleared, then the insertion failed *)
-          (Err, set_app (set_blocks st1 []) snap)
-        else (Ok tt, set_app (set_blocks st1 blocks) snap)
+          (Err, reset_graph (set_app (set_blocks st1 []) snap))
+        else (Ok tt, reset_graph (set_app (set_blocks st1 blocks) snap))
       end
   end.
